@@ -18,6 +18,7 @@ type vfSearchCase struct {
 	Back   []uint64 `json:"back"` // whole backing array
 	K      uint64   `json:"k"`
 	Nil    bool     `json:"nil"`   // xs is a nil slice
+	XCap   int      `json:"xcap"`  // words of spare capacity behind len(xs) (the slice is a prefix of a larger array)
 	Back2  []uint64 `json:"back2"` // second surrounding for the metamorphic check (same xs contents)
 	Off2   int      `json:"off2"`
 	Origin string   `json:"origin"` // generator classes, informational
@@ -70,7 +71,11 @@ func vfSearchTrailing(c *vfSearchCase) (inspectsPast bool, pastHit bool) {
 func vfCheckSearchCase(c *vfSearchCase) (sig string, msg string) {
 	var xs []uint64
 	if !c.Nil {
-		xs = c.Back[c.Off : c.Off+c.N : c.Off+c.N]
+		hi := c.Off + c.N + c.XCap
+		if hi > len(c.Back) {
+			hi = len(c.Back)
+		}
+		xs = c.Back[c.Off : c.Off+c.N : hi]
 	}
 	want := vfRefSearch(xs, c.K)
 	if nv := int(Naive(xs, c.K)); nv != want {
@@ -91,7 +96,7 @@ func vfCheckSearchCase(c *vfSearchCase) (sig string, msg string) {
 			c.K, got, want, len(xs), c.Off, vfTrunc(xs), vfTrunc(c.Back[c.Off+c.N:]))
 	}
 	if c.Back2 != nil && !c.Nil {
-		ys := c.Back2[c.Off2 : c.Off2+c.N : c.Off2+c.N]
+		ys := c.Back2[c.Off2 : c.Off2+c.N : len(c.Back2)] // and a different capacity
 		got2, p := vfCallSearch(ys, c.K)
 		if p != nil {
 			return "C20/panic", fmt.Sprintf("Search panicked on the second surrounding: %v", p)
@@ -127,6 +132,9 @@ func vfGenSearchCase(t *rapid.T) *vfSearchCase {
 	c.Off = rapid.IntRange(0, 9).Draw(t, "off")
 	pad := rapid.IntRange(8, 17).Draw(t, "pad")
 	c.Back = make([]uint64, c.Off+c.N+pad)
+	if rapid.Bool().Draw(t, "sparecap") {
+		c.XCap = rapid.IntRange(1, pad).Draw(t, "xcap")
+	}
 	// ascending keys on the even positions
 	mode := rapid.SampledFrom([]string{"dense", "sparse", "high", "low-start", "dups"}).Draw(t, "keymode")
 	var cur uint64
@@ -247,6 +255,9 @@ func vfSearchClasses(c *vfSearchCase) (nontrivial bool, classes []string) {
 	if c.Back2 != nil {
 		classes = append(classes, "metamorphic-pair")
 	}
+	if c.XCap > 0 {
+		classes = append(classes, "spare-capacity-behind-the-slice")
+	}
 	past, hit := vfSearchTrailing(c)
 	if past {
 		classes = append(classes, "kernel-would-inspect-past-end")
@@ -301,13 +312,15 @@ func TestVf_C20_Enum(t *testing.T) {
 				ks = append(ks, back[i], back[i]+1)
 			}
 			for _, k := range ks {
-				c := &vfSearchCase{N: n, Back: back, K: k, Origin: "enum"}
-				_, hit := vfSearchTrailing(c)
-				ev.Case(hit, vfHash(n, f, k), fmt.Sprintf("enum-n%%8=%d", n%8))
-				if sig, msg := vfCheckSearchCase(c); sig != "" {
-					cc := *c
-					cc.Back = append([]uint64(nil), back...)
-					t.Fatalf("%s", vfFail("C20", "enum", sig, &cc, "%s", msg))
+				for _, xcap := range []int{0, 16} {
+					c := &vfSearchCase{N: n, Back: back, K: k, XCap: xcap, Origin: "enum"}
+					_, hit := vfSearchTrailing(c)
+					ev.Case(hit, vfHash(n, f, k, xcap), fmt.Sprintf("enum-n%%8=%d", n%8))
+					if sig, msg := vfCheckSearchCase(c); sig != "" {
+						cc := *c
+						cc.Back = append([]uint64(nil), back...)
+						t.Fatalf("%s", vfFail("C20", "enum", sig, &cc, "%s", msg))
+					}
 				}
 			}
 		}
